@@ -16,6 +16,16 @@ CLAIMS = {
    note="Trusted: Coq kernel + vm_compute (witnesses only), extraction + OCaml driver, tools/sse_probe, hand model of eventsource-stream 0.2.3/nom streaming semantics validated only on sampled scripts. Partial: the one-event-per-poll machine is tied to the chunk-level theorems by the Pending lemma and the correspondence, not by a simulation proof; refinement to the HTML standard's reading (sse_spec) is checked on all explored scripts, proved only on the Example; serde_json is a per-event decode function.",
    technique="Coq proof (big-step drain relation + prefix stability of the streaming parser + UTF-8 DFA scan lemmas, induction over chunk lists) with differential correspondence against the support crate on scripted in-memory streams",
    design="§4 C20", engine="coq+sse_probe"),
+ "C09": dict(
+   text="Coq theorems (closed under the global context): for EVERY name (any length, any characters) and EVERY any_ascii transliteration of its non-ASCII characters, to_rust_const_name yields a legal identifier; to_rust_field_name and to_rust_type_name yield legal identifiers outside narrow, decidable classes (result `_`, `r#crate`, `r#super`, illegal verbatim r#-pass-through; result `r#Self`), each of which is refuted by a computed witness and recorded as a known finding; the generator's keyword list (regenerated from source) covers the language's keywords. Struct-field de-duplication is refuted by witness (foo-bar, foo_bar, foo_bar_2). Tie: the real sanitisers compiled into a probe by #[path] and run against the extracted model on every string over the 14-symbol alphabet up to length 3 (quick) / 5 (thorough), all keywords, random Unicode; scope uniqueness searched through the CLI + syn read-back.",
+   note="Trusted: Coq kernel + vm_compute (256-case character sweeps, keyword lists), translator (keyword lists), extraction, ident_probe, hand definition of identifier legality (legal_ident), hand model of inflections/regex sanitising on ASCII. Partial: uniqueness is proved for no scope yet (only refuted for struct fields / searched for fields and variants); module-item, method and header-constant scopes are not modelled.",
+   technique="Coq proof (structural lemmas over character lists + 256-case sweeps by vm_compute) with #[path] differential correspondence, bounded-exhaustive",
+   design="§4 C09", engine="coq+ident_probe+cli"),
+ "C08": dict(
+   text="Coq theorems (closed under the global context) about a model of the operation registry (filter at ingestion, _N uniquification, common-affix trimming): for EVERY operation list and filter, selection is set membership on whole base identifiers, each selected operation exactly once, in order (C08_selection_by_base); --only S and --exclude S partition the operations (C08_partition); the property's full statement (ids printed by `list` denote their rows) holds whenever base ids are distinct and have no common affix (C08_exact_outside_known) and is refuted otherwise by two computed witness families (C08_full_refuted: trimmed ids, _2 ids) recorded as one known finding. Tie: correspondence — real CLI `list operations` and server-mod --only/--exclude runs (1.5k quick) vs the extracted model registry.",
+   note="Trusted: Coq kernel, extraction, hand model of operation_registry.rs / trim_common_affixes validated on sampled specs, python model of ingestion order (oas3 PathItem::methods order), the real sanitiser for base ids. OPTIONS/TRACE operations excluded (C12 finding).",
+   technique="Coq proof (induction over the ingestion fold) with CLI differential correspondence",
+   design="§4 C08", engine="coq+cli"),
 }
 
 checks = []
